@@ -525,3 +525,22 @@ func FatalTail(s string) string {
 	}
 	return trunc(s, 200)
 }
+
+// CopyTree copies a directory tree (plain files and directories).
+func CopyTree(src, dst string) error {
+	return filepath.Walk(src, func(p string, info os.FileInfo, err error) error {
+		if err != nil {
+			return err
+		}
+		rel, _ := filepath.Rel(src, p)
+		target := filepath.Join(dst, rel)
+		if info.IsDir() {
+			return os.MkdirAll(target, 0755)
+		}
+		b, err := os.ReadFile(p)
+		if err != nil {
+			return err
+		}
+		return os.WriteFile(target, b, 0644)
+	})
+}
